@@ -45,6 +45,7 @@ type Ctx struct {
 	Shard   int
 	Scale   float64 // case-count multiplier (VERIF_SCALE)
 	outDir  string
+	t       *testing.T
 	root    string // /verif
 	mu      sync.Mutex
 	stats   *Stats
@@ -88,7 +89,7 @@ func envInt(name string, def int) int {
 // NewCtx reads the driver's environment. The returned context writes its statistics when the
 // test ends.
 func NewCtx(t *testing.T, prop string) *Ctx {
-	c := &Ctx{Prop: prop, Tier: os.Getenv("VERIF_TIER"), Shard: envInt("VERIF_SHARD", 0), started: time.Now()}
+	c := &Ctx{Prop: prop, Tier: os.Getenv("VERIF_TIER"), Shard: envInt("VERIF_SHARD", 0), started: time.Now(), t: t}
 	if c.Tier == "" {
 		c.Tier = "quick"
 	}
@@ -236,6 +237,9 @@ func (c *Ctx) fail(check string, input any, err error) {
 		msg = msg[:400]
 	}
 	fmt.Printf("FAILURE property=%s check=%s replay=%s :: %s\n", c.Prop, check, path, msg)
+	if c.t != nil {
+		c.t.Errorf("oracle failure in check %s (replay %s)", check, path)
+	}
 }
 
 type ReplayFile struct {
